@@ -365,6 +365,7 @@ class SchedRig(object):
         e['nodes']  = self.proj_nodes()
         e['pool']   = self.proj_pool()
         e['active'] = int(self.child._active_cnt)
+        e['off']    = int(getattr(self.child, '_node_offset', 0) or 0)
         self.events.append(e)
 
     # --------------------------------------------------------------------------
@@ -426,6 +427,17 @@ class SchedRig(object):
             self.log('Complete', uid=uid)
             self.parent.unschedule_cb(rpc.AGENT_UNSCHEDULE_PUBSUB, copy.deepcopy(self.pushed[uid]))
 
+    def do_complete_bulk(self, uids):
+        '''one unschedule message carrying several tasks (NOOP collector, intake filter, ...)'''
+        uids = [u for u in uids if u in self.started and u not in self.completed and u in self.pushed]
+        if not uids:
+            return
+        for u in uids:
+            self.completed.add(u)
+            self.log('Complete', uid=u)
+        self.parent.unschedule_cb(rpc.AGENT_UNSCHEDULE_PUBSUB,
+                                  [copy.deepcopy(self.pushed[u]) for u in uids])
+
     def do_env(self, act):
         k = act[0]
         if   k == 'arrive'  : self.do_arrive(act[1])
@@ -433,6 +445,7 @@ class SchedRig(object):
         elif k == 'cancelc' : self.do_cancelc(act[1])
         elif k == 'flush'   : self.do_flush()
         elif k == 'complete': self.do_complete(act[1])
+        elif k == 'complete_bulk': self.do_complete_bulk(act[1])
         elif k == 'complete_all':
             for u in sorted(self.started - self.completed):
                 self.do_complete(u)
@@ -454,9 +467,11 @@ class SchedRig(object):
         if self.held_put:
             acts.append(('flush',))
             acts.append(('flush',))
-        for u in self.started - self.completed:
-            if u in self.pushed:
-                acts.append(('complete', u))
+        run = sorted(u for u in self.started - self.completed if u in self.pushed)
+        for u in run:
+            acts.append(('complete', u))
+        if len(run) >= 2:
+            acts.append(('complete_bulk', self.rng.sample(run, self.rng.randint(2, len(run)))))
         return acts
 
     # --------------------------------------------------------------------------
@@ -502,8 +517,11 @@ class SchedRig(object):
                 elif (self.started - self.completed) and \
                         (self.script is not None or self.rng.random() < 0.8):
                     u = sorted(self.started - self.completed)
-                    u = u[self.rng.randrange(len(u))]
-                    self.do_complete(u)
+                    if self.script is None and len(u) >= 2 and self.rng.random() < 0.3:
+                        self.do_complete_bulk(self.rng.sample(u, self.rng.randint(2, len(u))))
+                    else:
+                        u = u[self.rng.randrange(len(u))]
+                        self.do_complete(u)
                 else:
                     rest = [u for u in self.shapes if u not in self.arrived]
                     if rest:
@@ -541,4 +559,7 @@ class SchedRig(object):
                        'lfs': x['lfs'], 'mem': x['mem']} for x in s.pop('supplied')]
             shapes[u] = s
         return {'uids': sorted(self.shapes), 'scattered': bool(self.scattered),
+                # non-scattered quiescence obligations are judged by the reference search of
+                # SchedOps (ContSearch): only where the class under test is Continuous itself
+                'nsq': bool(not self.scattered and type(self.child).__name__ == 'Continuous'),
                 'shapes': shapes, 'supplied': sup, 'events': self.events}
